@@ -195,7 +195,7 @@ def run(res):
     replay_all(res, g, tables, 'quick', desper)
     sample(res, g, tables, desper)
     if res.tier == 'thorough':
-        for fam in ('TV1', 'TV2', 'TV3', 'TB') + tuple('TS%d' % k for k in range(9)):
+        for fam in ('TV1', 'TV2', 'TV3', 'TB') + tuple('TS%d' % k for k in range(11)):
             if res.violations:
                 break
             with ThreadPoolExecutor(2) as pool:
